@@ -12,7 +12,7 @@ Executable transcription of `tipseudo.c`:
   (WORD), `wr_code_long` (LONG) with `RangeCheck(val, Int8 / Int16)` of `asmpars.c` (`Model/Data.lean`).
 
 State of the loop: the cells `[0, CodeLen)` of `WAsmCode` (16-bit `Word`s) and the callbacks' counter `adr`.
-`val` is a `LongInt` (32 bit, `longInt`); `largeWord v` are the bits of its sign extension; a store into a `Word` keeps the low 16 of them
+`val` is a `LongInt` (32 bit, `longInt`) up to /repo commit 5ab0322 and a `LargeInt` since (`cutVal`); `largeWord v` are the bits of its sign extension; a store into a `Word` keeps the low 16 of them
 (`% 65536`); `WAsmCode[adr / 2] |= x` at odd `adr` hits the cell appended at `adr - 1`, i.e. the last one (`orLast`).
 
 Not modelled: first-pass-unknown symbols (`mFirstPassUnknownOrQuestionable`), empty arguments, `define_untyped_label`
@@ -51,17 +51,22 @@ def callback (o : TIOp) (st : TISt) (v : Int) : Option TISt :=
   | .long =>                                             -- wr_code_long: no range check; val >> 16 is arithmetic
     some (buf ++ [largeWord v &&& 0xffff, (largeWord v >>> 16) % 65536], adr + 2)
 
-/-- `LongInt` is `Integ32`: the callbacks' parameter `LongInt val` receives `t.Contents.Int` (a 64-bit `LargeInt`)
-converted to 32 bits -/
+/-- `LongInt` is `Integ32`: a 64-bit `LargeInt` converted to 32 bits -/
 def longInt (v : Int) : Int := (v + 2 ^ 31) % 2 ^ 32 - 2 ^ 31
 
+/-- the value as the callback receives it.  `cut = true`: the callbacks' parameter is `LongInt val` (the code up to
+/repo commit 5ab0322: `t.Contents.Int`, a 64-bit `LargeInt`, is converted to 32 bits — finding
+`ti-pseudo-store-value-cut-to-32-bit-before-range-check`); `cut = false`: the parameter is `LargeInt val` (since that
+repair).  Set by a self-calibrating probe of the check each run (`byte 100000001h`); the SPEC never looks at it. -/
+def cutVal (cut : Bool) (v : Int) : Int := if cut then longInt v else v
+
 /-- `callback(&ok, &adr, <value>, t.Flags)` for each value in turn; stops at the first refusal (`forallargs(pArg, ok)`) -/
-def callbacks (o : TIOp) : TISt → List Int → Option TISt
+def callbacks (cut : Bool) (o : TIOp) : TISt → List Int → Option TISt
   | st, [] => some st
   | st, v :: vs =>
-    match callback o st (longInt v) with
+    match callback o st (cutVal cut v) with
     | none => none
-    | some st' => callbacks o st' vs
+    | some st' => callbacks cut o st' vs
 
 /-- what `EvalStrExpression` + the `switch (t.Typ)` hand to the callback for one argument; `none` = error -/
 def argVals (o : TIOp) (t : List Byte) : WArg → Option (List Int)
@@ -73,36 +78,66 @@ def argVals (o : TIOp) (t : List Byte) : WArg → Option (List Int)
     | some v => some [v]
     | none => some (cs.map fun c => ((ctt t c).toNat : Int))
 
-def tiArg (o : TIOp) (t : List Byte) (st : TISt) (a : WArg) : Option TISt :=
+def tiArg (cut : Bool) (o : TIOp) (t : List Byte) (st : TISt) (a : WArg) : Option TISt :=
   match argVals o t a with
   | none => none
-  | some vs => callbacks o st vs
+  | some vs => callbacks cut o st vs
 
 /-- `forallargs (pArg, ok)` -/
-def tiArgs (o : TIOp) (t : List Byte) : TISt → List WArg → Option TISt
+def tiArgs (cut : Bool) (o : TIOp) (t : List Byte) : TISt → List WArg → Option TISt
   | st, [] => some st
   | st, a :: as =>
-    match tiArg o t st a with
+    match tiArg cut o t st a with
     | none => none
-    | some st' => tiArgs o t st' as
+    | some st' => tiArgs cut o t st' as
 
 /-- `pseudo_store`: the cells `[0, CodeLen)`; `none` = `CodeLen = 0` after an error message -/
-def decodeTI (o : TIOp) (t : List Byte) (as : List WArg) : Option (List Nat) :=
-  (tiArgs o t ([], 0) as).map (·.1)
+def decodeTI (cut : Bool) (o : TIOp) (t : List Byte) (as : List WArg) : Option (List Nat) :=
+  (tiArgs cut o t ([], 0) as).map (·.1)
 
-def modelStmt (d : DCtx) : TIStmt → Option (List Nat)
+def modelStmt (cut : Bool) (d : DCtx) : TIStmt → Option (List Nat)
   | .data as => decodeDATA d as
-  | .ti o as => decodeTI o d.t as
+  | .ti o as => decodeTI cut o d.t as
 
 /-- a slot: statements at consecutive addresses; (byte offset, byte) cells and the end address in units -/
-def modelRunT (d : DCtx) (gran lg : Nat) (turn : Bool) : Nat → List TIStmt → Option (Cells × Nat)
+def modelRunT (cut : Bool) (d : DCtx) (gran lg : Nat) (turn : Bool) : Nat → List TIStmt → Option (Cells × Nat)
   | pc, [] => some ([], pc)
   | pc, st :: rest =>
-    match modelStmt d st with
+    match modelStmt cut d st with
     | none => none
     | some cells =>
-      match modelRunT d gran lg turn (pc + cells.length) rest with
+      match modelRunT cut d gran lg turn (pc + cells.length) rest with
       | none => none
       | some (r, pcEnd) => some (cellsAt (pc * gran) (dataBytes (match st with | .data _ => d.mask | .ti _ _ => 0xffff) gran lg turn cells) ++ r, pcEnd)
+
+
+/-! ## hypotheses of the whole-statement theorems (`Props/C09_TI.lean`), decidable: the driver evaluates them on every case -/
+
+/-- what the callback receives of `x` does not change what the range rule says about it.
+LONG (no range check in `wr_code_long`, before and after the repair): `x` is in the manual's range of a 32-bit element;
+the others, `cut = true`: `x` survives the conversion to 32 bits, or what is left of it is refused as well (this excludes
+exactly the inputs of the finding `ti-pseudo-store-value-cut-to-32-bit-before-range-check`); `cut = false`: no condition. -/
+def okCut (cut : Bool) (o : TIOp) (x : Int) : Bool :=
+  match o with
+  | .long => inRange 32 x
+  | _ => !cut || decide (longInt x = x) || !inRange o.bits (longInt x)
+
+/-- arguments the whole-statement equality is stated for: integers the 64-bit evaluator can deliver and that
+`okCut` accepts; single-quoted strings that are not empty; any double-quoted string; floats (refused by both) -/
+def tiArgOK (cut : Bool) (o : TIOp) : WArg → Bool
+  | .int v => decide (-(2 : Int) ^ 63 ≤ v ∧ v < (2 : Int) ^ 63) && okCut cut o v
+  | .chr cs => decide (1 ≤ cs.length)
+  | _ => true
+
+/-- DATA arguments of the same theorems (`ArgOK 16 false` of `Lemmas/DataWord.lean`): integers the 64-bit evaluator can
+deliver, single-quoted strings that are not empty -/
+def dataArgOK16 : WArg → Bool
+  | .int v => decide (-(2 : Int) ^ 63 ≤ v ∧ v < (2 : Int) ^ 63)
+  | .chr cs => decide (1 ≤ cs.length)
+  | _ => true
+
+def stmtOKb (cut : Bool) : TIStmt → Bool
+  | .data as => as.all dataArgOK16
+  | .ti o as => as.all (tiArgOK cut o)
 
 end AslModel.DataTIModel
